@@ -53,6 +53,17 @@ func runC01(p *Prog, r *Report) {
 	vocabularyRule(p, r, "C01.R8", p.Chains())
 	outputPackageRule(p, r, "C01.R9")
 	declaredSignatureRule(p, r, "C01.R10")
+	r.Rule("C01.R11", "a declared second result is emitted as `error`, so it must be exactly the built-in error: method.isError accepts nothing else (shared with C14.R3)", 1)
+	sub14 := newReport("C14", r.Tier)
+	c14R3(p, sub14)
+	for _, o := range sub14.Obls {
+		if o.Verdict == "violation" {
+			r.Bad(o.Site, o.Pos, o.How)
+		} else {
+			r.OK(o.Site, o.Pos, o.How)
+		}
+	}
+	definitionPackageRule(p, r, "C01.R12")
 }
 
 // reservedNames reads the initial lookup set from the map literal in namer.New.
